@@ -1541,6 +1541,20 @@ class _InlineNewHelpers(_InlineMethods):
                         out += got
                         continue
             # `for x in helper(...): BODY` with a generator helper: the helper's statements with `x = <yielded value>; BODY` in place of each yield
+            if isinstance(st, ast.For) and isinstance(st.iter, ast.Call) and isinstance(st.iter.func, ast.Name) and st.iter.func.id == 'enumerate' and len(st.iter.args) == 1 and \
+                    not st.iter.keywords and isinstance(st.iter.args[0], ast.Call) and isinstance(st.target, ast.Tuple) and len(st.target.elts) == 2 and \
+                    isinstance(st.target.elts[0], ast.Name) and isinstance(st.target.elts[1], (ast.Name, ast.Tuple)):
+                # `for i, x in enumerate(helper(...))`: the same with a counter that is advanced at every yield
+                r = self._callee(st.iter.args[0], host)
+                if r is not None and self._eligible(host, r[0], generator=True):
+                    import copy as _copy
+                    st2 = _copy.copy(st)
+                    st2.iter = st.iter.args[0]
+                    st2.target = st.target.elts[1]
+                    got = self._expand_generator_loop(st2, host, r, counter=st.target.elts[0].id)
+                    if got is not None:
+                        out += got
+                        continue
             if isinstance(st, ast.For) and isinstance(st.iter, ast.Call) and isinstance(st.target, (ast.Name, ast.Tuple)):
                 r = self._callee(st.iter, host)
                 if r is not None and self._eligible(host, r[0], generator=True):
@@ -1880,7 +1894,7 @@ class _InlineNewHelpers(_InlineMethods):
         self._import_globals_of(m)
         return res
 
-    def _expand_generator_loop(self, st, host, r):
+    def _expand_generator_loop(self, st, host, r, counter=None):
         """the consumer's loop body runs once per yield, at the yield: a `break` of the consumer leaves the whole expanded block, a `continue`
         goes on with the helper (only possible where the yield is the last thing its loop does), the helper's `return` ends the loop"""
         import copy
@@ -1966,6 +1980,8 @@ class _InlineNewHelpers(_InlineMethods):
             out_ = []
             for s_ in stmts:
                 if isinstance(s_, ast.Assign) and len(s_.targets) == 1 and isinstance(s_.targets[0], ast.Name) and s_.targets[0].id == '__yielded__':
+                    if counter is not None:
+                        out_.append(ast.copy_location(ast.AugAssign(target=ast.Name(id=counter, ctx=ast.Store()), op=ast.Add(), value=ast.Constant(value=1)), s_))
                     if not same(s_.value, st.target):
                         out_.append(ast.copy_location(ast.Assign(targets=[copy.deepcopy(st.target)], value=s_.value, type_comment=None), s_))
                     out_ += body_copy()
@@ -1979,6 +1995,8 @@ class _InlineNewHelpers(_InlineMethods):
                 out_.append(s_)
             return out_
         res = place(res)
+        if counter is not None:
+            res.insert(0, ast.copy_location(ast.Assign(targets=[ast.Name(id=counter, ctx=ast.Store())], value=ast.Constant(value=-1), type_comment=None), st))
         # `for ... else`: the else part runs when the helper is exhausted, i.e. after its statements; a `break` of the body jumps past it
         res += st.orelse
         if has_break:
